@@ -249,6 +249,11 @@ class ContractSet:
         if typ.startswith("const:"):
             fr = Frame(self.any_module())
             return I.ev(ast.parse(typ[6:], mode="eval").body, fr)
+        if typ.startswith("sub:"):
+            # any class of the repository that is the named class or a subclass of it (closed world)
+            base = I.class_by_qual(typ[4:])
+            subs = [c for c in self.all_repo_classes(I) if c.issub(base)]
+            return self.make(I, "union:" + "|".join("obj:" + c.qualname for c in subs), name, depth)
         if typ.startswith("obj:"):
             cls = I.class_by_qual(typ[4:])
             if depth > 4:
@@ -297,6 +302,30 @@ class ContractSet:
             from . import libmodels
             return libmodels.make_ext(I, self, typ[4:], name)
         raise Unsupported(f"unknown type {typ!r}")
+
+    def all_repo_classes(self, I):
+        out = []
+        root = os.path.join(self.L.repo, "msmart")
+        for dp, dn, fn in os.walk(root):
+            for f in sorted(fn):
+                if not f.endswith(".py") or f.startswith("test_") or os.path.basename(dp) == "tests":
+                    continue
+                rel = os.path.relpath(os.path.join(dp, f), self.L.repo)[:-3].replace(os.sep, ".")
+                if rel.endswith(".__init__"):
+                    rel = rel[:-9]
+                if rel in ("msmart.cli",):
+                    continue
+                try:
+                    m = self.L.module(rel)
+                except Exception:
+                    continue
+                for nm, d in m.defs.items():
+                    if d[0] == "class":
+                        try:
+                            out.append(self.L.build_class(m, d[1], I))
+                        except Unsupported:
+                            pass
+        return out
 
     def module_defining(self, name):
         for m in self.modules.values():
@@ -809,7 +838,10 @@ class ContractSet:
         P = I.path
         tag = f"{c.target}.loop{k}"
         is_for = isinstance(node, (ast.For, ast.AsyncFor))
-        sfr = Frame(c.module, locals=fr.locals, parent=None, func="<spec>")    # shares the locals of the function
+        outer = None
+        if I.verifying is not None and I.verifying.split("#")[0] == c.target.split("#")[0] and P.ghost.get("entry_locals"):
+            outer = Frame(c.module, locals=P.ghost["entry_locals"], func="<spec>")      # contract-level names (ghost parameters, lets)
+        sfr = Frame(c.module, locals=fr.locals, parent=outer, func="<spec>")    # shares the locals of the function
         dom = None
         if is_for:
             dom = self.loop_domain(I, it)
@@ -823,6 +855,8 @@ class ContractSet:
             fr.locals["_i"] = mkint(0)
         for j, src in enumerate(lc.get("invariant", [])):
             self.check_clause(I, c, f"{tag}.init.{j}", src, sfr)
+        for n_, src in lc.get("define", {}).items():
+            self.check_clause(I, c, f"{tag}.init.define.{n_}", f"({n_}) == ({src})", sfr)
         body_names = self.assigned_names(node.body)
         hav_names = [n for n in sorted(body_names) if n in fr.locals] + [g for g in lc.get("ghost_init", {}) if g not in body_names]
         hav_names += [n for n in lc.get("havoc", {}) if n.isidentifier() and n in fr.locals and n not in hav_names]
@@ -884,7 +918,7 @@ class ContractSet:
                 t = self.eval_clause(I, c, src, sfr)
                 P.assume(t.term())
                 P.assumption(f"{tag}: per-iteration instance of the function's well-formedness pre-condition: {src}")
-            pre_srcs = list(lc.get("step_ensures", {}).values()) + list(lc.get("ghost_step", {}).values())
+            pre_srcs = list(lc.get("step_ensures", {}).values()) + list(lc.get("ghost_step", {}).values()) + list(lc.get("step_hints", {}).values())
             pre_vals = {}
             for src in pre_srcs:
                 for n_ in ast.walk(c.expr(src)):
@@ -921,6 +955,10 @@ class ContractSet:
             try:
                 for g, src in lc.get("ghost_step", {}).items():
                     fr.locals[g] = I.ev(c.expr(src), sfr)
+                for n, src in lc.get("step_hints", {}).items():
+                    # intermediate assertion: proved first, then available to the clauses that follow
+                    self.check_clause(I, c, f"{tag}.step.hint.{n}", src, sfr)
+                    P.assume(self.eval_clause(I, c, src, sfr).term())
                 for n, src in lc.get("step_ensures", {}).items():
                     self.check_clause(I, c, f"{tag}.step.{n}", src, sfr)
             finally:
@@ -955,6 +993,15 @@ class ContractSet:
                 if (w[1], w[2]) not in hv and not self._fresh_since(I, w[1]):
                     raise Unsupported(f"{tag}: loop body writes field {w[2]} of object {w[1]} not listed in the loop's modifies")
             elif w[0] == "cont":
+                owned = False
+                for b_, a_ in hav_lvs:
+                    cur = I.getattr_(b_, a_)
+                    if isinstance(cur, VRef) and I.hobj(cur).kind == "ext":
+                        it_ = I.hobj(cur).meta.get("items")
+                        if isinstance(it_, VRef) and it_.ref == w[1]:
+                            owned = True
+                if owned:
+                    continue
                 if not self._fresh_since(I, w[1]) and not any(isinstance(I.getattr_(b, a), VRef) and I.getattr_(b, a).ref == w[1] for b, a in hav_lvs):
                     loc_ok = any(isinstance(v, VRef) and v.ref == w[1] for n, v in fr.locals.items() if n in names)
                     if not loc_ok:
